@@ -66,7 +66,7 @@ T = {
  "C21": ("invariant monitoring of the real loaders in forked children plus system-call monitoring (strace -f open/openat/openat2) of loading processes, with a harness-made positive control; ASan on the result monitor in thorough",
          "Exploration: generated ONNX models with external initialisers (8 dtypes, shapes equal/smaller/larger than the range) loaded through load_file, load_mmap and external_data+load from a scratch tree (recognised/unrecognised/nested/backslash/unicode/255-byte/empty/symlinked names, secret.data one level up, cwd outside the model dir); ~150 hand-written locations, a component grammar over '/' and '\\', name mutations, random strings, an offset x length grid with 2^31/2^32/2^63/2^64-1, negative, non-numeric and u64-wrapping sums. Load Ok implies an acceptable single file name that exists in the model directory, a range inside the file (u128) and constant == file[offset..offset+length] read back two ways; anything else must be Err (panic/abort/signal/hang flagged); every successful open in a traced load must be <model dir>/<one acceptable component>.",
          "Unix host only; symlink targets, extension-prefix names (w.database), NUL and non-UTF-8 locations are counted, not judged; a refusal of an acceptable case is never flagged."),
- "C22": ("concurrent stress against precomputed sequential results; plan-cache events and seeded yields through hooks; TSan and Miri in thorough",
+ "C22": ("concurrent stress against precomputed sequential results; plan-cache events and seeded yields through hooks; ThreadSanitizer in thorough",
          "Exploration: 2-8 threads share one model and issue run/partial_run requests with mutually different plan keys (forcing plan-cache replacement, also in nested subgraph caches) with seeded delays between plan hand-off and execution; every result compared bit-exactly with the same request executed alone. Evidence counts plan replacements that happened while another call was in flight and distinct event interleavings.",
          "Schedules are sampled, not enumerated; an unfinished group is inconclusive."),
  "C23": ("real-thread stress with seeded schedule perturbation at in-crate yield points; ownership ledger; layout-checking counting allocator; ASan (quick), TSan and Miri (thorough)",
